@@ -774,6 +774,265 @@ def two_object_shapes(ctx, probe: dict, requests: list, ev: dict):
             requests.clear()
 
 
+# --------------------------------------------------------------------------------------
+# several libraries on different paths, sessions overlapping in time: each is its own map
+# --------------------------------------------------------------------------------------
+def multi_events(rng, nlib: int, nrec: list, same_keys: bool, order: str) -> list:
+    """interleaved puts / gets / keys() on `nlib` libraries whose writing sessions overlap"""
+    key = (lambda li, i: f"k{i}") if same_keys else (lambda li, i: f"L{li}_{i}")
+    opened = list(range(nlib))
+    if order == "staggered":
+        ev = [("open", 0)]
+        later = list(range(1, nlib))
+    else:
+        ev = [("open", li) for li in (opened if order == "forward" else reversed(opened))]
+        later = []
+    todo = {li: list(range(nrec[li])) for li in range(nlib)}
+    done = {li: [] for li in range(nlib)}
+    live = [0] if order == "staggered" else list(range(nlib))
+    while any(todo[li] for li in range(nlib)):
+        if later and (rng.chance(1, 3) or not any(todo[li] for li in live)):
+            li = later.pop(0)
+            ev.append(("open", li))
+            live.append(li)
+        li = rng.choice([x for x in live if todo[x]] or live)
+        if todo[li] and rng.chance(2, 3):
+            i = todo[li].pop(0)
+            ev.append(("put", li, key(li, i)))
+            done[li].append(i)
+        for lj in live:                                  # look at EVERY open library after the store
+            if done[lj] and rng.chance(2, 3):
+                ev.append(("get", lj, key(lj, rng.choice(done[lj]))))
+        if rng.chance(1, 4):
+            ev.append(("keys", rng.choice(live)))
+    for li in later:
+        ev.append(("open", li))
+        live.append(li)
+    for li in live:
+        ev += [("keys", li)] + [("get", li, key(li, i)) for i in done[li]]
+    closing = list(live) if order != "reverse" else list(reversed(live))
+    if order == "forward":
+        closing = list(reversed(closing))            # opened 0,1,2 - flushed 2,1,0; "reverse": opened 2,1,0 - flushed ... 0 first
+    for n, li in enumerate(closing):
+        ev.append(("close", li))
+        for lj in closing[n + 1:]:                       # the ones still open must not have been touched by that flush
+            if done[lj]:
+                ev.append(("get", lj, key(lj, done[lj][-1])))
+    return ev
+
+
+def run_multi_case(ctx, tag: str, spec: list, events: list, label: str, probe: dict, requests: list):
+    """spec = [(kind, version, bufsize, [records])]; every library is compared with ITS OWN reference map after every step, and
+    after all sessions are closed (fresh objects, keys of the file, stored bytes)"""
+    libs, inps, keyof = [], [], []
+    for li, (kind, version, bufsize, recs) in enumerate(spec):
+        path = ctx.scratch / f"{tag}_{li}.{'mlib' if kind == 'mol' else 'clib'}"
+        libs.append([kind, path, version, bufsize, {}])
+        inps.append({})
+    used = sorted({(e[1], e[2]) for e in events if e[0] == "put"})
+    nxt = [0] * len(spec)
+    for li, k in used:
+        rec = spec[li][3][nxt[li]]
+        nxt[li] += 1
+        o = cl.build(rec)
+        libs[li][4][k] = o
+        inps[li][k] = cl.snapshot(o)
+    replay = {"shape": "several-libraries:" + label, "libraries": [{"kind": k, "version": v, "bufsize": b, "records": {key: " ".join(cl.record_tokens(inps[li][key])) for key in sorted(inps[li])}}
+                                                                  for li, (k, v, b, _) in enumerate(spec)],
+              "events": [list(e) for e in events]}
+    ctx.case(json.dumps(replay, sort_keys=True), nontrivial=True)
+    ctx.count(f"session-shape:several-libraries-{len(spec)}")
+    obs = cl.run_multi([tuple(x) for x in libs], events)
+    ref = [set() for _ in spec]
+    reported = False
+
+    def bad(what):
+        nonlocal reported
+        if not reported:
+            reported = True
+            ctx.violation("C01:libraries-on-different-paths-interfere", f"{label}: {what}", replay)
+
+    def line_of(li, k):
+        kind, version = spec[li][0], spec[li][1]
+        sch = probe["orders"][(kind, version)]["ser"]
+        return " ".join([kind] + schema_tokens(sch, (probe["atom_dflt"], probe["bond_dflt"])) + cl.record_tokens(inps[li][k]))
+
+    for n, e, res in obs:
+        op, li = e[0], e[1]
+        who = f"library {li} ({spec[li][0]} v{spec[li][1]} bufsize={spec[li][2]})"
+        if op == "put":
+            if isinstance(res, Exception):
+                bad(f"step {n}: storing {e[2]} in {who} raised {type(res).__name__}: {res}")
+            else:
+                ref[li].add(e[2])
+        elif op == "get":
+            ctx.count("several-libraries-read")
+            if isinstance(res, Exception):
+                bad(f"step {n}: {who}[{e[2]}] stored earlier raised {type(res).__name__}: {res}")
+                requests.append((line_of(li, e[2]), None, None, replay, None))
+            else:
+                d = [x for x in cl.compare(inps[li][e[2]], res) if x[0] != "list-read-back-as-tuple"]
+                if d:
+                    other = [lj for lj in range(len(spec)) if lj != li and e[2] in inps[lj] and spec[lj][0] == spec[li][0]
+                             and not [x for x in cl.compare(inps[lj][e[2]], res) if x[0] != "list-read-back-as-tuple"]]
+                    bad(f"step {n}: {who}[{e[2]}] is not what was stored there" + (f" - it is the record stored in library {other[0]}" if other else "") + f": {d[0][1]}")
+                requests.append((line_of(li, e[2]), None, cl.canon_nan(cl.record_tokens(res)), replay, None))
+        elif op == "keys":
+            if isinstance(res, Exception) or res != sorted(ref[li]):
+                bad(f"step {n}: keys() of {who} gave {res!r}, stored there: {sorted(ref[li])}")
+        elif isinstance(res, Exception):
+            bad(f"step {n}: {op} of {who} raised {type(res).__name__}: {res}")
+    for li, (kind, version, bufsize, _) in enumerate(spec):
+        who = f"library {li} ({kind} v{version} bufsize={bufsize})"
+        try:
+            fk = cl.file_keys(libs[li][1])
+            rawb = cl.raw_bytes(libs[li][1], sorted(ref[li]))
+        except Exception as ex:  # noqa: BLE001
+            bad(f"after closing: the file of {who} cannot be opened: {type(ex).__name__}: {ex}")
+            continue
+        if fk != sorted(ref[li]):
+            bad(f"after closing: the file of {who} holds the keys {fk}, stored there: {sorted(ref[li])}")
+        backs = cl.load(kind, libs[li][1], sorted(ref[li]))
+        for k in sorted(ref[li]):
+            b = backs.get(k)
+            if isinstance(b, Exception) or b is None:
+                bad(f"after closing: {who}[{k}] cannot be read by a fresh object: {type(b).__name__}: {b}")
+                requests.append((line_of(li, k), None, None, replay, rawb.get(k)))
+                continue
+            bs = cl.snapshot(b)
+            d = [x for x in cl.compare(inps[li][k], bs) if x[0] != "list-read-back-as-tuple"]
+            if d:
+                bad(f"after closing: {who}[{k}] read by a fresh object is not what was stored there: {d[0][1]}")
+            requests.append((line_of(li, k), None, cl.canon_nan(cl.record_tokens(bs)), replay, rawb.get(k)))
+
+
+def several_library_shapes(ctx, probe: dict, requests: list, ev: dict):
+    n = 0
+    plans = []
+    for nlib in (2, 3):
+        for same_keys in (True, False):
+            for order in ("forward", "reverse", "staggered"):
+                plans.append((nlib, same_keys, order))
+    extra = 0 if ctx.quick() else 120
+    for j in range(len(plans) + extra):
+        ctx.check_deadline()
+        nlib, same_keys, order = plans[j] if j < len(plans) else (ctx.rng.choice([2, 3]), ctx.rng.chance(2, 3), ctx.rng.choice(["forward", "reverse", "staggered"]))
+        spec = []
+        for li in range(nlib):
+            kind = ctx.rng.choice(["mol", "ens"]) if j % 2 else "mol"      # same class: a record of one could pass for the other's
+            version = 2 if ctx.rng.chance(4, 5) else 1
+            bufsize = BUFSIZES[(j + li) % len(BUFSIZES)] if j % 3 else ctx.rng.choice([64, 10**6])   # often: all queues in use
+            spec.append((kind, version, bufsize, [gen_record(ctx.rng, kind, version, True, ev) for _ in range(ctx.rng.range(2, 4))]))
+        events = multi_events(ctx.rng, nlib, [len(s[3]) for s in spec], same_keys, order)
+        run_multi_case(ctx, f"multi{n}", spec, events, f"{nlib} libraries, {'same' if same_keys else 'different'} keys, sessions {order}", probe, requests)
+        n += 1
+        if len(requests) >= 400:
+            check_driver(ctx, requests)
+            requests.clear()
+
+
+# --------------------------------------------------------------------------------------
+# iteration over a library with lookups by key between two steps
+# --------------------------------------------------------------------------------------
+def run_iteration_case(ctx, tag: str, kind: str, version: int, recs: list, how: str, plan_kind: str, bufsize: int, in_writing: bool,
+                       probe: dict, requests: list):
+    path = ctx.scratch / f"{tag}.{'mlib' if kind == 'mol' else 'clib'}"
+    keys = [f"k{i}" for i in range(len(recs))]
+    objs = {k: cl.build(r) for k, r in zip(keys, recs)}
+    inps = {k: cl.snapshot(o) for k, o in objs.items()}
+    n = len(keys)
+    plan = {}
+    for step in range(n):
+        if plan_kind == "none":
+            break
+        picks = {"earlier": [keys[0]], "later": [keys[-1]], "same": None, "mixed": [keys[(step * 2 + 1) % n], keys[0], keys[-1]]}[plan_kind]
+        plan[step] = picks          # 'same': filled below (depends on what the step yielded)
+    replay = {"shape": f"iteration:{how}:{plan_kind}", "kind": kind, "version": version, "bufsize": bufsize, "in_writing": in_writing,
+              "records": [" ".join(cl.record_tokens(inps[k])) for k in keys]}
+    ctx.case(json.dumps(replay, sort_keys=True), nontrivial=plan_kind != "none")
+    ctx.count(f"session-shape:iteration-{how}")
+    if plan_kind == "same":
+        # the key that was just yielded is not known in advance for set-ordered iteration: look up all keys in turn instead
+        plan = {step: [keys[step % n]] for step in range(n)}
+    yielded, lookups = cl.run_iteration(kind, path, version, objs, how, plan, bufsize, in_writing)
+    sch = probe["orders"][(kind, version)]["ser"]
+    stoks = schema_tokens(sch, (probe["atom_dflt"], probe["bond_dflt"]))
+    reported = False
+
+    def bad(what):
+        nonlocal reported
+        if not reported:
+            reported = True
+            ctx.violation("C01:iteration-yields-something-else-than-stored",
+                          f"{kind} v{version} bufsize={bufsize} {'writing' if in_writing else 'reading'} session, {how} with {plan_kind} lookups between the steps: {what}", replay)
+
+    def clean(a, b):
+        return not [x for x in cl.compare(a, b) if x[0] != "list-read-back-as-tuple"]
+
+    seen = []
+    for k, snap in yielded:
+        ctx.count("iteration-step")
+        if isinstance(snap, Exception):
+            bad(f"step {len(seen)} raised {type(snap).__name__}: {snap}")
+            break
+        if k is None:      # values(): the object must be one of the stored ones, each once
+            match = [kk for kk in keys if kk not in seen and clean(inps[kk], snap)]
+            if not match:
+                bad(f"value number {len(seen)} is none of the stored objects (or one that was yielded before)")
+                break
+            k = match[0]
+        elif k not in inps:
+            bad(f"a key that was never stored is yielded: {k!r}")
+            break
+        elif not clean(inps[k], snap):
+            d = [x for x in cl.compare(inps[k], snap) if x[0] != "list-read-back-as-tuple"]
+            others = [kk for kk in keys if kk != k and clean(inps[kk], snap)]
+            bad(f"key {k} comes with something else than what is stored under it" + (f" (the object stored under {others[0]})" if others else "") + f": {d[0][1]}")
+        seen.append(k)
+        requests.append((" ".join([kind] + stoks + cl.record_tokens(inps[k])), None, cl.canon_nan(cl.record_tokens(snap)), replay, None))
+    if not reported and sorted(seen) != sorted(keys):
+        bad(f"the iteration yielded {sorted(seen)}, stored: {sorted(keys)}")
+    for step, k, snap in lookups:
+        if isinstance(snap, Exception):
+            bad(f"lookup of {k} after step {step} raised {type(snap).__name__}: {snap}")
+        elif not clean(inps[k], snap):
+            bad(f"lookup of {k} after step {step} gives something else than what is stored")
+
+
+def same_size_records(rng, kind: str, version: int, n: int, ev: dict) -> list:
+    """n records of exactly the same stored size: one record, only the (equally long) names and a coordinate differ"""
+    base = gen_record(rng, kind, version, True, ev)
+    out = []
+    for i in range(n):
+        r = copy.deepcopy(base)
+        r["name"] = f"same{i}"
+        if r["atoms"]:
+            r["atoms"][0][2] = f"L{i}"
+        out.append(r)
+    return out
+
+
+def iteration_shapes(ctx, probe: dict, requests: list, ev: dict):
+    n = 0
+    hows = ["items", "keys", "iter", "values"]
+    plans = ["earlier", "later", "same", "mixed", "none"]
+    combos = [(kind, how, pk) for kind in ("mol", "ens") for how in hows for pk in plans]
+    extra = 0 if ctx.quick() else 200
+    for j in range(len(combos) + extra):
+        ctx.check_deadline()
+        kind, how, pk = combos[j] if j < len(combos) else (ctx.rng.choice(["mol", "ens"]), ctx.rng.choice(hows), ctx.rng.choice(plans))
+        version = 2 if (j % 5) else 1
+        m = ctx.rng.range(3, 6)
+        recs = same_size_records(ctx.rng, kind, version, m, ev) if j % 2 else [gen_record(ctx.rng, kind, version, True, ev) for _ in range(m)]
+        for i, r in enumerate(recs):
+            r["name"] = f"{r['name']}#{i}"           # distinct objects, so that values() can be told apart
+        run_iteration_case(ctx, f"iter{n}", kind, version, recs, how, pk, BUFSIZES[j % len(BUFSIZES)], in_writing=(j % 3 == 0), probe=probe, requests=requests)
+        n += 1
+        if len(requests) >= 400:
+            check_driver(ctx, requests)
+            requests.clear()
+
+
 def session_shapes(ctx, probe: dict, requests: list, ev: dict):
     n = 0
     for kind, version, recs, script, bufsize, shape in load_corpus_scripts():
@@ -928,6 +1187,11 @@ def run(ctx):
                 "(b)-(d) for both classes, both encodings and bufsize in {-1, 0, 64, 10^6}, always followed by a fresh object "
                 "reading every key and by the byte comparison of the stored values; every read is a double read (read, edit the returned object in place, read the same key again on the same library "
                 "object; the last key once more in a second reading session) and scripts contain get-edit-get steps; "
+                "(f) two and three libraries of either class on DIFFERENT paths whose writing sessions overlap (opened / flushed in "
+                "both orders and staggered, same and different keys, all bufsize values): each library is compared with its own "
+                "reference map after every step and after closing (keys of the file, fresh object, stored bytes); (g) iteration "
+                "(items(), keys()+[], iter()+[], values()) with lookups of earlier / later / the same / mixed keys between two steps, "
+                "equal-size and unequal-size records, reading and writing sessions; "
                 "(e) two library objects on one path: a "
                 "long-lived object stores and reads, another object re-creates the file (overwrite=True) under the same keys or "
                 "appends, the long-lived object reads again. Stored objects are built plainly or (half of the stream, all "
@@ -1005,6 +1269,8 @@ def run(ctx):
     # ---- session shapes: interleaved reads and writes on one long-lived library object ----
     session_shapes(ctx, probe, requests, ev)
     two_object_shapes(ctx, probe, requests, ev)
+    several_library_shapes(ctx, probe, requests, ev)
+    iteration_shapes(ctx, probe, requests, ev)
 
     # ---- bundled libraries (legacy files go through the legacy codec) ----
     bundled(ctx, probe, requests)
@@ -1050,6 +1316,27 @@ def replay(ctx, path):
     obj = json.loads(Path(path).read_text())
     print(json.dumps({k: v for k, v in obj.items() if k != "replay"}, indent=1)[:3000])
     r = obj.get("replay") or {}
+    if "events" in r or str(r.get("shape", "")).startswith("iteration:"):
+        _ = ctx.scratch
+        from harness.gen import Schema
+        probe = Schema.cached_probe()
+        if "events" in r:
+            spec = []
+            for lb in r["libraries"]:
+                ks = sorted(lb["records"], key=lambda k: [e[2] for e in r["events"] if e[0] == "put" and e[2] == k][:1])
+                order = [e[2] for e in r["events"] if e[0] == "put" and e[1] == len(spec)]
+                spec.append((lb["kind"], int(lb["version"]), int(lb["bufsize"]),
+                             [cl.record_from_tokens(lb["kind"], lb["records"][k].split(" ")) for k in sorted(set(order))]))
+            run_multi_case(ctx, "replay_multi", spec, [tuple(e) for e in r["events"]], r["shape"], probe, [])
+        else:
+            _, how, pk = r["shape"].split(":")
+            recs = [cl.record_from_tokens(r["kind"], t.split(" ")) for t in r["records"]]
+            run_iteration_case(ctx, "replay_iter", r["kind"], int(r["version"]), recs, how, pk, int(r["bufsize"]), bool(r["in_writing"]), probe, [])
+        bad = [v for v in ctx.violations if v["kind"] != KNOWN_KIND]
+        for v in bad:
+            print("violation:", v["kind"], v["what"])
+        print("replayed:", "differs" if bad else "every read gave what was stored in that library")
+        return 1 if bad else 0
     if "records2" in r:
         _ = ctx.scratch
         from harness.gen import Schema
